@@ -296,7 +296,7 @@ func (c *Ctx) varInitOfObj(obj types.Object) (ast.Expr, *packages.Package) {
 func (c *Ctx) repoFuncs() []*ssa.Function {
 	var out []*ssa.Function
 	for f := range c.allFuncs {
-		if f.Pkg != nil && strings.HasPrefix(f.Pkg.Pkg.Path(), modPath) && f.Blocks != nil && !strings.HasSuffix(f.Pkg.Pkg.Path(), "/testutil") {
+		if f.Blocks != nil && isRepoPkgFn(f) {
 			out = append(out, f)
 		}
 	}
